@@ -31,14 +31,19 @@ theorem cutAux_fuel (n : Nat) (hn : n ≠ 0) :
           have hd : (l.drop n).length = l.length - n := List.length_drop
           rw [ih f2 (l.drop n) (by omega) (by omega)]
 
+theorem cutAux_succ (n f : Nat) (l : Bits) :
+    cutAux n (f + 1) l =
+      if (l.take n).length = 0 then [] else
+      if (l.take n).length ≠ n then [l.take n] else l.take n :: cutAux n f (l.drop n) := rfl
+
 theorem cutMsb_nil (n : Nat) : cutMsb n [] = [] := by
   simp [cutMsb, cutAux]
 
 theorem cutMsb_cons (n : Nat) (hn : n ≠ 0) (l : Bits) (hl : l ≠ []) :
     cutMsb n l = l.take n :: cutMsb n (l.drop n) := by
   have hpos : 0 < l.length := List.length_pos_iff.mpr hl
-  unfold cutMsb
-  simp only [cutAux]
+  show cutAux n (l.length + 1) l = l.take n :: cutAux n ((l.drop n).length + 1) (l.drop n)
+  rw [cutAux_succ]
   have h0 : (l.take n).length ≠ 0 := by rw [List.length_take]; omega
   simp only [if_neg h0]
   by_cases hcn : (l.take n).length ≠ n
@@ -172,6 +177,7 @@ theorem cut_recut (lsb0 : Bool) (n k : Nat) (hn : n ≠ 0) (hk : k ≠ 0) (l : B
   | true =>
     simp only [cut, if_true]
     rw [← cutMsb_recut n k hn hk l.reverse, List.flatMap_map, List.map_flatMap]
+    trace_state
     simp only [List.reverse_reverse]
 
 theorem cut_ne_nil (lsb0 : Bool) (n : Nat) (hn : n ≠ 0) (l : Bits) (hl : l ≠ []) : cut lsb0 n l ≠ [] := by
@@ -192,6 +198,7 @@ theorem cut_flatten_length_mod (lsb0 : Bool) (n : Nat) (hn : n ≠ 0) (l : Bits)
       intro hg
       rw [List.flatten_cons, List.length_append, Nat.add_mod, hg g (List.mem_cons_self ..),
         ih (fun x hx => hg x (List.mem_cons_of_mem _ hx))]
+      simp
   have hf := cut_flatten lsb0 n hn l
   cases lsb0 with
   | false =>
